@@ -58,7 +58,7 @@ def budgets_for(case: OptCase, chosen_n2):
     out = []
     rho_min = None
     # a single-precision basis matrix is eliminated in single precision (norms accurate to eps32); the costs are always float64
-    rel_norm = BUDGET_REL * (Fraction(2) ** 29 if case.meta.get("dtype") == "float32" else 1)
+    rel_norm = BUDGET_REL * (Fraction(2) ** 29 if case.meta.get("dtype") in ("float32", "float16") else 1)
     for n2 in chosen_n2:
         amp = Fraction(1) if rho_min is None else max(Fraction(1), sc / rho_min)
         out.append(max(rel_norm * sc * amp, BUDGET_REL * cmax))
